@@ -32,7 +32,8 @@ class AddGuard(Contract):
     name = "pysnark.runtime:add_guard"
     vprops = ("C08",)
     fprops = ("C08",)
-    cprops = sprops = eprops = tprops = ()
+    cprops = sprops = eprops = ()
+    tprops = ("C06",)       # entering a nested region must cost the same constraints whatever the outer guard's value
     guard_relevant = False
     modules = ("pysnark.runtime", "pysnark.boolean")
 
